@@ -185,7 +185,12 @@ impl CowBytes<'_> {
     #[inline]
     pub fn truncate(&mut self, len: usize) {
         match self {
-            Self::Temporary(data) => *self = Self::Temporary(&data[..len]),
+            Self::Temporary(data) => {
+                // Past the end there is nothing to drop (like `Bytes::truncate` below)
+                if len < data.len() {
+                    *self = Self::Temporary(&data[..len]);
+                }
+            }
             Self::Static(bytes) => bytes.truncate(len),
         }
     }
